@@ -283,6 +283,8 @@ impl DiskManager {
     }
 
     pub fn used_disk_space(&self) -> u64 {
+        #[cfg(datafusion_verif)]
+        datafusion_common::verif::sync_point("disk_manager:286");
         self.used_disk_space.load(Ordering::Relaxed)
     }
 
@@ -441,10 +443,16 @@ impl Drop for RefCountedTempFile {
         // Check if we're the last one by seeing if there's only one strong reference
         // left to the underlying tempfile (the one we're holding)
         if Arc::strong_count(&self.tempfile) == 1 {
+            #[cfg(datafusion_verif)]
+            datafusion_common::verif::sync_point("disk_manager:444");
             let current_usage = self.current_file_disk_usage.load(Ordering::Relaxed);
+            #[cfg(datafusion_verif)]
+            datafusion_common::verif::sync_point("disk_manager:445");
             self.disk_manager
                 .used_disk_space
                 .fetch_sub(current_usage, Ordering::Relaxed);
+            #[cfg(datafusion_verif)]
+            datafusion_common::verif::sync_point("disk_manager:448");
             self.disk_manager
                 .active_files_count
                 .fetch_sub(1, Ordering::Relaxed);
@@ -482,6 +490,8 @@ impl std::io::Write for FileSpillWriter {
             return Ok(0);
         }
 
+        #[cfg(datafusion_verif)]
+        datafusion_common::verif::sync_point("disk_manager:485");
         let new_global = self
             .disk_manager
             .used_disk_space
@@ -491,6 +501,8 @@ impl std::io::Write for FileSpillWriter {
         let limit = self.disk_manager.max_temp_directory_size();
 
         if new_global > limit {
+            #[cfg(datafusion_verif)]
+            datafusion_common::verif::sync_point("disk_manager:494");
             self.disk_manager
                 .used_disk_space
                 .fetch_sub(len, Ordering::Relaxed);
@@ -504,6 +516,8 @@ impl std::io::Write for FileSpillWriter {
 
         self.file.write_all(buf).map_err(DataFusionError::IoError)?;
 
+        #[cfg(datafusion_verif)]
+        datafusion_common::verif::sync_point("disk_manager:507");
         self.current_file_disk_usage
             .fetch_add(len, Ordering::Relaxed);
 
